@@ -7,7 +7,7 @@ from common import Run, main_guard
 def main():
     run = Run("C11")
     run.rule = ("layout: random dtype/shape mixes + every dtype after a 1-byte leaf; threaded writer: every order of <=4 tasks (sampled beyond); "
-                "histories: random 1-7 op histories around consolidate, then pickle and deepcopy; trips: 11 container kinds x 14 serialisations; "
+                "histories: random 1-7 op histories around consolidate, then pickle and deepcopy; trips: 16 container kinds x 16 serialisations; rebuild: nodes with 1-5 leaves of which several jagged nested tensors with/without lengths, lazy stacks of 1-30 members; "
                 "a case is non-trivial if it is a distinct structure/history")
     run.trusted += [
         "Model/C11Consolidate.lean: hand transcription of _reduce_vals_and_metadata.add_single_value, consolidate (cat and threaded paths), "
@@ -40,6 +40,12 @@ def main():
         corpus = [json.loads(p.read_text()) for p in sorted((VERIF / "corpus" / "C11").glob("*.json"))]
         run.count("corpus.cases", len(corpus))
         c11_hist.replay_histories(run, drv, [c["case"] for c in corpus], scratch)
+    finally:
+        shutil.rmtree(scratch, ignore_errors=True)
+    import c11_rebuild
+    scratch.mkdir(parents=True, exist_ok=True)
+    try:
+        c11_rebuild.run_rebuild(run, drv, scratch)
     finally:
         shutil.rmtree(scratch, ignore_errors=True)
     c11_hist.run_layout(run, drv)
